@@ -40,6 +40,10 @@ def getAllByDetails (s : List Rec) (name : String) (type class_ : Nat) : List Re
 /-- the most recently arrived match -/
 def getByDetails (s : List Rec) (name : String) (type class_ : Nat) : Option Rec :=
   (getAllByDetails lower s name type class_).getLast?
+/-- the most recently arrived unexpired pointer record of `name` with alias `alias` -/
+def currentEntryWithNameAndAlias (s : List Rec) (name alias : String) (now : Ms) : Option Rec :=
+  (entriesWithName lower s name).reverse.find? (fun e =>
+    decide (e.type = Gen.typePtr) && !(e.isExpired now) && (match e.rdata with | .ptr a => decide (a = alias) | _ => false))
 /-- is `k` the (lower-cased) owner name of some cached record? -/
 def hasName (s : List Rec) (k : String) : Prop := ∃ e ∈ s, lower e.name = k
 
